@@ -105,6 +105,11 @@ def all_ops():
         for par in SECS:
             for mode in ('ok', 'badcard', 'badvalue'):
                 ops.append(('ctor_prop', name, par, mode))
+    # constructors with an id argument (C04: a malformed id passed at creation is replaced by a fresh one)
+    for kind in ('valid', 'upper', 'braced', 'truncated', 'garbage'):
+        ops.append(('ctor_sec', 'b', 'D', 'oid-' + kind))
+        ops.append(('ctor_prop', 'b', 'S0', 'oid-' + kind))
+        ops.append(('ctor_doc', kind))
     ops.append(('ctor_sec', 'a', 'P0', 'ok'))          # wrong parent type
     ops.append(('ctor_prop', 'a', 'D', 'ok'))          # wrong parent type
     # create_section / create_property
@@ -207,7 +212,11 @@ def apply_op(op, env):
     if kind == 'ctor_sec':
         _, name, par, card = op
         kw = {'sec_cardinality': (2, 1)} if card == 'badcard' else {}
+        if card.startswith('oid-'):
+            kw = {'oid': ID_KINDS[card[4:]]}
         ex.append(odml.Section(name=name, type='t', parent=g(par), **kw))
+    elif kind == 'ctor_doc':
+        ex.append(odml.Document(oid=ID_KINDS[op[1]]))
     elif kind == 'ctor_prop':
         _, name, par, mode = op
         kw = {}
@@ -215,6 +224,8 @@ def apply_op(op, env):
             kw = {'val_cardinality': (2, 1)}
         elif mode == 'badvalue':
             kw = {'values': 'x', 'dtype': 'int'}
+        elif mode.startswith('oid-'):
+            kw = {'oid': ID_KINDS[mode[4:]]}
         ex.append(odml.Property(name=name, parent=g(par), **kw))
     elif kind == 'create_section':
         ex.append(g(op[1]).create_section(op[2], 't'))
@@ -362,6 +373,7 @@ CATEGORIES = (
     ('non-property', 'child-list-content-type'),
     ('empty name', 'name-not-empty'),
     ('id ', 'id-canonical-uuid'),
+    ('document id', 'id-canonical-uuid'),
     ('document is', 'document-is-root-of-parent-chain'),
     ('did not terminate', 'queries-terminate'),
     ('query raised', 'queries-terminate'),
@@ -472,22 +484,67 @@ def invariant(env):
     return problems
 
 
+def _typed(v):
+    """Value with its type, so that 1, 1.0 and True (or a DType member and its name) differ."""
+    if isinstance(v, (list, tuple)):
+        return (type(v).__name__,) + tuple(_typed(x) for x in v)
+    return (type(v).__name__, v if isinstance(v, (int, float, str, type(None))) else repr(v))
+
+
+def signature(root):
+    """Same information as harness.snap(root, ids=True, parent=True) - every field of
+    harness.PROP_FIELDS / SEC_FIELDS / DOC_FIELDS, the values, parent / merged / child identities in list
+    order - as one flat list (one entry per reachable object), several times cheaper to build.
+    Only used on Inv-states (finite trees) and on post-states that passed the structural checks."""
+    out = []
+    stack = [root]
+    steps = 0
+    while stack:
+        steps += 1
+        if steps > 2000:
+            out.append('unbounded')
+            break
+        n = stack.pop()
+        if isinstance(n, BaseProperty):
+            out.append((id(n), id(n._parent) if n._parent is not None else None,
+                        tuple(_typed(getattr(n, f, '<unset>')) for f in h.PROP_FIELDS), _typed(n._values)))
+        elif isinstance(n, BaseSection):
+            secs, props = _kids(n, 's'), _kids(n, 'p')
+            out.append((id(n), id(n._parent) if n._parent is not None else None,
+                        id(n._merged) if getattr(n, '_merged', None) is not None else None,
+                        tuple(_typed(getattr(n, f, '<unset>')) for f in h.SEC_FIELDS),
+                        tuple(id(c) for c in secs), tuple(id(c) for c in props)))
+            stack.extend(props)
+            stack.extend(secs)
+        elif isinstance(n, BaseDocument):
+            secs = _kids(n, 's')
+            out.append((id(n), tuple(_typed(getattr(n, f, '<unset>')) for f in h.DOC_FIELDS),
+                        tuple(id(c) for c in secs)))
+            stack.extend(secs)
+        else:
+            out.append((id(n), 'foreign', repr(n)))
+    return out
+
+
 def pre_snapshot(env):
     roots = h.roots_of(pool_objs(env))
-    return [(r, h.snap(r)) for r in roots]
+    return [(r, signature(r)) for r in roots]
 
 
 def changed_on_raise(pre, env):
     """C06: compare all roots with the snapshots taken before the call. None == unchanged."""
     roots = h.roots_of(pool_objs(env))
     if len(roots) != len(pre) or any(a is not b[0] for a, b in zip(roots, pre)):
-        # which pool object changed its root?
         return 'the set of roots changed: %d roots before, %d after (an object was detached, attached ' \
                'or a new parent became reachable)' % (len(pre), len(roots))
     for r, before in pre:
-        after = h.snap(r)
+        after = signature(r)
         if after != before:
-            return 'root %r differs: %s' % (r, h.diff(before, after))
+            if len(after) != len(before):
+                return 'root %r: %d objects reachable before, %d after' % (r, len(before), len(after))
+            for x, y in zip(before, after):
+                if x != y:
+                    return 'root %r: an object below it changed from %r to %r' % (r, x[1:], y[1:])
     return None
 
 
@@ -537,6 +594,8 @@ def features(op, env):
             sibs = _kids(dest, 's' if kind == 'ctor_sec' else 'p')
             if any(s._name == name for s in sibs):
                 f.add('name-clash-at-destination')
+        if mode.startswith('oid-'):
+            f.add('id-' + mode[4:])
         if mode == 'badcard':
             f.add('invalid-cardinality-argument')
         if mode == 'badvalue':
@@ -637,6 +696,8 @@ def features(op, env):
                 f.add('destination-inside-source')
     elif kind == 'new_id':
         f.add('id-' + op[2])
+    elif kind == 'ctor_doc':
+        f.add('id-' + op[1])
     return '+'.join(sorted(f)) if f else 'plain'
 
 
@@ -658,6 +719,11 @@ def evaluate(history, op):
         return [('operation-terminates', 'operation did not return within 10 s')], None, 'timeout', feat
     violations = []
     problems = invariant(env)
+    for o in env['_extras'][n_extras:]:         # objects created by this very operation, attached or not
+        if isinstance(o, BaseDocument):
+            problems += [p for p in h.wellformed(o, max_nodes=50) if 'document id' in p]
+        elif isinstance(o, (BaseSection, BaseProperty)):
+            problems += h._name_id_problems(o)
     if problems:
         violations.append((primary_clause(problems),
                            'after %s (%s): %s' % (outcome, type(exc).__name__ if exc else 'ok',
@@ -674,7 +740,6 @@ def evaluate(history, op):
     key = None
     if not problems:
         key = canon(env)
-    del n_extras
     return violations, key, outcome, feat
 
 
@@ -733,9 +798,9 @@ def run_histories(tier='quick', seed=0, plan=None, walks=None, max_evaluations=N
     if plan is None:
         plan = PLANS['quick' if quick else 'thorough']
     if walks is None:
-        walks = 0 if quick else 4000
+        walks = 0 if quick else 2500
     if max_evaluations is None:
-        max_evaluations = 75000 if quick else 750000
+        max_evaluations = 75000 if quick else 720000
     col = h.Collector(
         NAME,
         rule='explicit-state search: every one of the %d concrete operations of the C03 list (pool: 1 Document, '
@@ -773,8 +838,18 @@ def run_histories(tier='quick', seed=0, plan=None, walks=None, max_evaluations=N
             buckets[d].append(hist)
     states_expanded = 0
     truncated = False
+    sampled = None
     for remaining in range(max_depth, 0, -1):
-        for hist in buckets[remaining]:
+        todo = buckets[remaining]
+        room = max(0, max_evaluations - col.evaluations) // len(OPS)
+        if remaining == 1 and len(todo) > room:
+            # budget: a seeded sample of the states of the last level instead of a prefix of them
+            rnd = random.Random(seed)
+            keep = set(rnd.sample(range(len(todo)), room))
+            sampled = (room, len(todo))
+            todo = [x for i, x in enumerate(todo) if i in keep]
+            truncated = True
+        for hist in todo:
             if col.evaluations >= max_evaluations:
                 truncated = True
                 break
@@ -834,5 +909,7 @@ def run_histories(tier='quick', seed=0, plan=None, walks=None, max_evaluations=N
     res = col.result()
     res['states'] = len(seen)
     res['states_expanded'] = states_expanded
+    if sampled:
+        res['last_level_sampled'] = '%d of %d states of the last level expanded (seeded sample, evaluation budget)' % sampled
     res['operations'] = len(OPS)
     return res
